@@ -20,6 +20,10 @@ Rule family R8 (interval normal forms) on bisturi/fragments.py::Fragments:
 The sparse-array behaviour over all histories (an inductive invariant) is not decided.
 
 Round 4: (R8-buffer-per-pack) Packet.pack hands pack_impl a buffer made for that call.
+
+Round 5: asserts are read as python -O reads them; the slot bisect_left with a successor test
+blind to the successor's length; iterating the index list in tobytes is a violation when
+insert() lets the index repeat a position.
 """
 import ast
 
